@@ -472,13 +472,15 @@ def validate_traces(module, events, nproc=None, cfg=None, timeout=1500, heap="3g
                     if getattr(res, "unparsed", None):
                         raise InfraError("trace validation with %s: report line is not valid JSON: %s" % (module, res.unparsed[0]))
                     i = res.out.find("Error:")
-                    raise InfraError("trace validation with %s failed (rc=%s %s)\n%s" % (module, res.rc, res.error, res.out[max(0, i - 200):i + 2500] if i >= 0 else res.out[-3000:]))
+                    raise InfraError("trace validation with %s failed (rc=%s %s)\n%s\n...\n%s" % (
+                        module, res.rc, res.error, res.out[max(0, i - 200):i + 2500] if i >= 0 else "", res.out[-1500:]))
                 rep = res.cases[-1]
                 verdicts.extend(rep["verdicts"])
                 for k in stats:
                     stats[k] += rep["stats"].get(k, 0)
     finally:
-        shutil.rmtree(tdir, ignore_errors=True)
+        if not os.environ.get("VERIF_KEEP_TRACES"):
+            shutil.rmtree(tdir, ignore_errors=True)
     return verdicts, stats, ress
 
 
